@@ -384,7 +384,7 @@ func main() {
 		} else {
 			downCase(s, r, p, v, conf, sk, how, "down-"+ver(v))
 		}
-		if i%4 == 1 { // neighbour family on a fresh frame of moderate size
+		if (!thorough && i%4 == 1) || (thorough && i%8 == 1) { // neighbour family on a fresh frame of moderate size
 			o2 := framefmt.ValidDataOpt(r)
 			if o2.FRMLen > 60 {
 				o2.FRMLen = r.Intn(61)
